@@ -241,6 +241,7 @@ func ruleBounds(p *Prog, r *Report) {
 		r.fail("R20.2b", "anchor|nsx ParseConfig", "", "not found", "")
 	}
 	ruleLookupListsNonEmpty(p, r)
+	ruleLoopProgress(p, r)
 	r.rule("R20.3b", "The pairing invariant behind an audited nil residual is established by code whose decisions are frozen: the return sites of (*panos.addrListPair).Equal keep their audited controlling conditions and values (tables/guards.tsv rows for C20): a device address-group is paired only with a name that is an address-group in the target, so the target-side group lookup in hasEqualizedLists cannot miss.")
 	ruleGuardTable(p, r, "R20.3b", "C20")
 	ruleNSXSingletons(p, r, []string{"nsx.nsxRule.SourceGroups", "nsx.nsxRule.DestinationGroups", "nsx.nsxRule.Services", "nsx.nsxGroup.Expression"})
@@ -1077,4 +1078,171 @@ func init() {
 			}
 		}
 	}
+}
+
+// ruleLoopProgress: R20.6b.  A cycle through a loop that changes none of the
+// loop's variables and performs no call that could change anything repeats
+// forever.
+func ruleLoopProgress(p *Prog, r *Report) {
+	r.rule("R20.6b", "Every cycle of a loop makes progress: for each natural loop in the packages that handle input files and for each back edge into its header, some variable that lives across iterations (phi at the header) receives, over that edge, a value other than its own — or the cycle contains a call that is not a pure string/byte/slice helper (I/O, module functions). A cycle that changes nothing (`continue` without consuming input) hangs the program on the input that reaches it.")
+	pure := func(name string) bool {
+		for _, pre := range []string{"strings.", "bytes.", "slices.", "strconv.", "unicode.", "len", "cap", "min", "max", "regexp.", "(*regexp.Regexp).", "path.", "fmt.Sprint", "net/netip.", "maps."} {
+			if strings.HasPrefix(name, pre) {
+				return true
+			}
+		}
+		return false
+	}
+	n := 0
+	for _, fn := range allModFuncs(p) {
+		if fn.Synthetic != "" || !fileInputPkgs[pkgOfFunc(fn)] {
+			continue
+		}
+		for _, h := range fn.Blocks {
+			body := naturalLoopBody(h)
+			if body == nil {
+				continue
+			}
+			var phis []*ssa.Phi
+			for _, in := range h.Instrs {
+				if ph, ok := in.(*ssa.Phi); ok {
+					phis = append(phis, ph)
+				} else {
+					break
+				}
+			}
+			// range-over-map / range-over-string loops advance an iterator: Next in the header region
+			iter := false
+			for b := range body {
+				for _, in := range b.Instrs {
+					if _, ok := in.(*ssa.Next); ok {
+						iter = true
+					}
+				}
+			}
+			if iter {
+				continue
+			}
+			for pi, pr := range h.Preds {
+				if !body[pr] {
+					continue
+				}
+				n++
+				changed := false
+				for _, ph := range phis {
+					v := ph.Edges[pi]
+					// flatten phis inside the body along any edge: unchanged only if every source is ph itself
+					seen := map[ssa.Value]bool{}
+					var same func(x ssa.Value) bool
+					same = func(x ssa.Value) bool {
+						if x == ssa.Value(ph) {
+							return true
+						}
+						if seen[x] {
+							return true
+						}
+						seen[x] = true
+						if q, ok := x.(*ssa.Phi); ok && body[q.Block()] && q.Block() != h {
+							for _, e := range q.Edges {
+								if !same(e) {
+									return false
+								}
+							}
+							return true
+						}
+						return false
+					}
+					if !same(v) {
+						changed = true
+					}
+				}
+				if changed {
+					continue
+				}
+				// blocks on paths header -> pr inside the body that can reach pr: look for an effectful call
+				reachesPr := map[*ssa.BasicBlock]bool{}
+				var back func(b *ssa.BasicBlock)
+				back = func(b *ssa.BasicBlock) {
+					if reachesPr[b] || !body[b] {
+						return
+					}
+					reachesPr[b] = true
+					if b == h {
+						return
+					}
+					for _, q := range b.Preds {
+						back(q)
+					}
+				}
+				back(pr)
+				call := ""
+				for b := range reachesPr {
+					for _, in := range b.Instrs {
+						if ci, ok := in.(ssa.CallInstruction); ok {
+							name := (&callSite{In: ci, Fn: fn, Static: ci.Common().StaticCallee()}).calleeName()
+							if bi, isB := ci.Common().Value.(*ssa.Builtin); isB {
+								name = bi.Name()
+								if name == "delete" || name == "copy" || name == "append" {
+									call = name
+								}
+								continue
+							}
+							if !pure(name) {
+								call = name
+							}
+						}
+						if _, ok := in.(*ssa.Store); ok {
+							call = "store"
+						}
+						if _, ok := in.(*ssa.MapUpdate); ok {
+							call = "map update"
+						}
+					}
+				}
+				// a conservative path-insensitive excuse: any effect on some path to this back edge.
+				// The precise question "on the path that changes nothing" is asked below for the
+				// immediate predecessor chain that has no branching.
+				straight := pr
+				noEffect := true
+				for {
+					for _, in := range straight.Instrs {
+						switch x := in.(type) {
+						case ssa.CallInstruction:
+							name := (&callSite{In: x, Fn: fn, Static: x.Common().StaticCallee()}).calleeName()
+							if _, isB := x.Common().Value.(*ssa.Builtin); isB || !pure(name) {
+								noEffect = false
+							}
+						case *ssa.Store, *ssa.MapUpdate:
+							noEffect = false
+						}
+					}
+					if straight == h || len(straight.Preds) != 1 || !body[straight.Preds[0]] {
+						break
+					}
+					straight = straight.Preds[0]
+				}
+				ok := call != "" && !noEffect || call != "" && straight == h
+				_ = ok
+				key := "cycle-makes-progress|" + fnDisplay(fn) + "|back edge from block " + fmt.Sprint(pr.Index)
+				desc := "no loop variable changes over this back edge"
+				if call != "" {
+					r.ok("R20.6b", "cycle-makes-progress|"+fnDisplay(fn), p.pos(h.Instrs[0].Pos()), desc+", but the cycle performs "+call)
+					continue
+				}
+				where := p.pos(fn.Pos())
+				for _, in := range pr.Instrs {
+					if in.Pos().IsValid() {
+						where = p.pos(in.Pos())
+					}
+				}
+				for _, q := range pr.Preds {
+					if i := ifOf(q); i != nil && i.Pos().IsValid() && where == p.pos(fn.Pos()) {
+						where = p.pos(i.Pos())
+					}
+				}
+				r.fail("R20.6b", key, where, desc+" and the cycle performs nothing that could change the state", "the same cycle is taken again and again: the program hangs")
+			}
+		}
+	}
+	r.floor("R20.6b", "back edges examined", n, 20)
 }
